@@ -977,6 +977,15 @@ Proof.
     + split; [exact I|]. split; [|exact I]. split; [exact Hb|]. split; [now apply finite_notnan32|exact Hz].
     + split; [exact I|]. split; [|exact I]. split; [exact Hb|]. split; [now apply finite_notnan64|exact Hz].
 Qed.
+(* a slot of a list of such values and arrays of them *)
+Definition goodca (o : popts) (zf zd : Z) (v : av) : Prop := goodc o zf zd v \/ exists ty n, v = VArr ty n.
+Lemma goodca_sa o zf zd v : goodca o zf zd v -> sa v.
+Proof. intros [H|(ty & n & ->)]; [apply scalar_sa; apply (goodc_facts o zf zd v H)|exact I]. Qed.
+Lemma goodca_inrv o zf zd v : goodca o zf zd v -> inrv zf zd v.
+Proof. intros [H|(ty & n & ->)]; [apply (goodc_facts o zf zd v H)|exact I]. Qed.
+Lemma goodca_mk o zf zd k z : goodca o zf zd (mk k z) -> goodc o zf zd (mk k z).
+Proof. intros [H|(ty & n & E)]; [exact H|destruct k; discriminate]. Qed.
+
 Lemma goodc_mk o zf zd k z : goodc o zf zd (mk k z) -> small_k k z.
 Proof. intros [H|[H|[_ H]]]; destruct k; cbn in H; tauto. Qed.
 
@@ -1218,8 +1227,8 @@ Proof.
     rewrite Hm. rewrite (pav_scalar o a0 _ _ None 4 Hs). rewrite Ed, E. reflexivity.
 Qed.
 
-Lemma print_iter a0 rest size prev t tmp cols cols1 bb cv :
-  Forall (goodc o zf zd) (a0 :: rest) -> Z.of_nat (length (a0 :: rest)) < 2 ^ 31 ->
+Lemma print_iter_sa a0 rest size prev t tmp cols cols1 bb cv :
+  goodc o zf zd a0 -> Forall (goodca o zf zd) rest -> Z.of_nat (length (a0 :: rest)) < 2 ^ 31 ->
   (forall p, prev = Some p -> scalar p) ->
   convert_to_range o (a0 :: rest) size = cv -> cv <> CUnmod ->
   print_arg_val o (match cv with CYes c _ => c | _ => a0 :: rest end) cols prev = Some (t, tmp, cols1, bb) ->
@@ -1230,10 +1239,11 @@ Lemma print_iter a0 rest size prev t tmp cols cols1 bb cv :
     iorig its = firstn inc (a0 :: rest) /\ iter_text prev its t /\
     nth_error (a0 :: rest) (inc - 1) = ilast its.
 Proof.
-  intros Hg Hlen Hprev Hcv Hnu Hp.
-  pose proof (Forall_inv Hg) as Hg0. destruct (goodc_facts o zf zd a0 Hg0) as (Hs0 & _ & Hex0).
-  assert (Hsc : Forall scalar (a0 :: rest)) by (eapply Forall_impl; [|exact Hg]; intros a Ha; apply (goodc_facts o zf zd a Ha)).
-  assert (Hin : Forall (inrv zf zd) (a0 :: rest)) by (eapply Forall_impl; [|exact Hg]; intros a Ha; apply (goodc_facts o zf zd a Ha)).
+  intros Hg0 Hgr Hlen Hprev Hcv Hnu Hp.
+  destruct (goodc_facts o zf zd a0 Hg0) as (Hs0 & _ & Hex0).
+  assert (Hg : Forall (goodca o zf zd) (a0 :: rest)) by (constructor; [now left|exact Hgr]).
+  assert (Hsc : Forall sa (a0 :: rest)) by (eapply Forall_impl; [|exact Hg]; exact (goodca_sa o zf zd)).
+  assert (Hin : Forall (inrv zf zd) (a0 :: rest)) by (eapply Forall_impl; [|exact Hg]; exact (goodca_inrv o zf zd)).
   destruct cv as [|c kk|]; [| |congruence].
   - (* no conversion: one value *)
     unfold print_arg_val in Hp. rewrite (pav_scalar o a0 rest cols prev 5 Hs0) in Hp.
@@ -1242,7 +1252,7 @@ Proof.
     exists [IVal a0 t], 1%nat. split; [reflexivity|]. split; [exact Hw|].
     split; [destruct a0; cbn in Hs0; try contradiction; reflexivity|]. split; [cbn [length]; lia|].
     split; [reflexivity|]. split; [split; [reflexivity|split; assumption]|reflexivity].
-  - destruct (range_expand_shape zf zd (proj1 Hz) (proj2 Hz) o (a0 :: rest) size c kk Hsc Hin Hex0 Hlen Hcv) as (n & -> & Hn5 & Hexp & Hshape).
+  - destruct (range_expand_shape_sa zf zd (proj1 Hz) (proj2 Hz) o (a0 :: rest) size c kk Hsc Hin Hex0 Hlen Hcv) as (n & -> & Hn5 & Hexp & Hshape).
     destruct Hn5 as [Hn5 Hnl].
     destruct Hshape as [[[y Ec] Hrep]|(k & d & x & y & Ec & Hdr & Hhd & Hd0 & Hexj)]; subst c; cbn [hd] in *.
     + (* N x value *)
@@ -1264,7 +1274,7 @@ Proof.
       assert (Hex : forall j, (j < n)%nat -> wr k (x + Z.of_nat j * d) = x + Z.of_nat j * d)
         by (intros j Hj; apply wr_id; apply (Hexj j Hj)).
       assert (Hsm : forall j, (j < n)%nat -> small_k k (wr k (x + Z.of_nat j * d))).
-      { intros j Hj. rewrite Hex by assumption. apply (goodc_mk o zf zd). eapply Forall_forall; [exact Hg|].
+      { intros j Hj. rewrite Hex by assumption. apply (goodc_mk o zf zd). apply goodca_mk. eapply Forall_forall; [exact Hg|].
         eapply nth_error_In. exact (proj1 (Hexj j Hj)). }
       set (last := x + (Z.of_nat n - 1) * d).
       assert (Hlast : wr k (x + (Z.of_nat n - 1) * d) = last).
@@ -1316,6 +1326,22 @@ Proof.
         unfold ctx_ok. rewrite (types_match_kind (mk k x) k (x + d)) by now destruct k.
         replace (av_type (mk k x) =? av_type (mk k (x + d))) with true by (destruct k; reflexivity).
         exists x. split; [reflexivity|]. right. split; lia.
+Qed.
+
+Lemma print_iter a0 rest size prev t tmp cols cols1 bb cv :
+  Forall (goodc o zf zd) (a0 :: rest) -> Z.of_nat (length (a0 :: rest)) < 2 ^ 31 ->
+  (forall p, prev = Some p -> scalar p) ->
+  convert_to_range o (a0 :: rest) size = cv -> cv <> CUnmod ->
+  print_arg_val o (match cv with CYes c _ => c | _ => a0 :: rest end) cols prev = Some (t, tmp, cols1, bb) ->
+  exists its inc,
+    bb = false /\ tmp = len t /\
+    Z.of_nat inc = (match cv with CYes _ kk => kk | _ => next_arg_offset (a0 :: rest) end) /\
+    (1 <= inc <= length (a0 :: rest))%nat /\
+    iorig its = firstn inc (a0 :: rest) /\ iter_text prev its t /\
+    nth_error (a0 :: rest) (inc - 1) = ilast its.
+Proof.
+  intros Hg. apply print_iter_sa; [exact (Forall_inv Hg)|].
+  eapply Forall_impl; [|exact (Forall_inv_tail Hg)]. intros a Ha. now left.
 Qed.
 
 Fixpoint iseq_from (pend : bool) (p : option av) (its : list item) (sfx : list Z) : Prop :=
